@@ -27,6 +27,7 @@ use std::collections::{BTreeMap, BTreeSet, HashMap};
 use std::panic::{catch_unwind, AssertUnwindSafe};
 use std::sync::{Arc, OnceLock};
 use std::time::Duration;
+use lightning_signer::bitcoin::hashes::Hash as _;
 use vls_persist::kvv::memory::MemoryKVVStore;
 use vls_persist::kvv::{JsonFormat, KVVPersister};
 
@@ -39,6 +40,10 @@ pub fn did(d: u64) -> u64 { 10 * d + 2 }
 pub fn mid(d: u64) -> u64 { 10 * d + 3 }
 fn ucid(d: u64) -> u64 { 10 * d + 8 } // counterparty commitment paying us a to_remote output
 fn scid(d: u64) -> u64 { 10 * d + 9 } // sweep of that output
+fn uhid(d: u64) -> u64 { 100 + 10 * d + 1 } // counterparty commitment with our to_remote output and one HTLC it offered (we know the preimage)
+fn shid(d: u64) -> u64 { 100 + 10 * d + 2 } // sweep of our to_remote output of UH
+fn thid(d: u64) -> u64 { 100 + 10 * d + 3 } // our claim of the HTLC output of UH (with the preimage)
+fn vhid(d: u64) -> u64 { 100 + 10 * d + 4 } // spend of the claim's output
 fn uid(d: u64) -> u64 { 10 * d + 4 }
 fn sid(d: u64) -> u64 { 10 * d + 5 }
 fn tid(d: u64) -> u64 { 10 * d + 6 } // spend of the HTLC output of U_d
@@ -152,6 +157,10 @@ impl W15 {
             let cp_point = lightning_signer::util::test_utils::key::make_test_pubkey(12);
             let (to_holder, to_cp, feerate) = (1_000_000u64 + d, 1_950_000u64, 1000u32);
             let offered = vec![HTLCInfo2 { value_sat: 30_000 + d, payment_hash: PaymentHash([d as u8; 32]), cltv_expiry: 100 }];
+            let preimage = [0x40 + d as u8; 32];
+            let in_hash = PaymentHash(lightning_signer::bitcoin::hashes::sha256::Hash::hash(&preimage).to_byte_array());
+            let cp_offered = vec![HTLCInfo2 { value_sat: 20_000 + d, payment_hash: in_hash, cltv_expiry: 120 }];
+            let (uh_to_holder, uh_to_cp) = (1_300_000u64 + d, 1_650_000u64);
             let persister = self.persister.clone();
             let node_id = self.node.get_id();
             self.node.with_channel(&id, |chan| {
@@ -159,9 +168,30 @@ impl W15 {
                 chan.set_next_counterparty_commit_num_for_testing(commit_num + 1, cp_point);
                 chan.enforcement_state.current_holder_commit_info =
                     Some(CommitmentInfo2::new(false, to_cp, to_holder, offered.clone(), vec![], feerate));
+                // the counterparty's current commitment carries one HTLC it offered to us
+                chan.enforcement_state.current_counterparty_commit_info =
+                    Some(CommitmentInfo2::new(true, uh_to_holder, uh_to_cp, cp_offered.clone(), vec![], feerate));
                 persister.update_channel(&node_id, chan).unwrap();
                 Ok(())
             }).unwrap();
+            // ... for an invoice this node issued and whose preimage it has learned (incoming payment fulfilled):
+            // node state as `add_invoice` + `htlcs_fulfilled` leave it, persisted
+            {
+                let mut st = self.node.get_state();
+                st.issued_invoices.insert(in_hash, lightning_signer::node::PaymentState {
+                    invoice_hash: [0x70 + d as u8; 32],
+                    amount_msat: (20_000 + d) * 1000,
+                    payee: self.node.get_id(),
+                    duration_since_epoch: Duration::from_secs(1_700_000_000),
+                    expiry_duration: Duration::from_secs(10 * 365 * 86400),
+                    is_fulfilled: true,
+                    payment_type: lightning_signer::node::PaymentType::Invoice,
+                });
+                let mut rp = lightning_signer::node::RoutedPayment::new();
+                rp.preimage = Some(lightning_signer::lightning::types::payment::PaymentPreimage(preimage));
+                st.payments.insert(in_hash, rp);
+                self.persister.update_node(&self.node.get_id(), &st).unwrap();
+            }
             let secp_ctx = lightning_signer::bitcoin::secp256k1::Secp256k1::signing_only();
             let node_ctx = TestNodeContext { node: self.node.clone(), secp_ctx };
             let counterparty_keys = make_test_counterparty_keys(&node_ctx, &id, setup.channel_value_sat);
@@ -182,6 +212,20 @@ impl W15 {
             let uc_our = uc.output.iter().position(|o| o.value.to_sat() == uc_to_holder).unwrap() as u32;
             self.kinds.insert(ucid(d), format!("c{}/-", uc_our));
             let sc = mk_tx(vec![OutPoint::new(uc.compute_txid(), uc_our)], 1, 260 + d as u32);
+            // counterparty commitment with that HTLC
+            let oic = lightning_signer::channel::Channel::htlcs_info2_to_oic(&cp_offered, &vec![]);
+            let uh = self.node.with_channel(&id, |chan| Ok(chan.make_counterparty_commitment_tx(&cp_point, commit_num, feerate, uh_to_holder, uh_to_cp, oic.clone())))
+                .unwrap().trust().built_transaction().transaction.clone();
+            let uh_our = uh.output.iter().position(|o| o.value.to_sat() == uh_to_holder).unwrap() as u32;
+            let uh_h = uh.output.iter().position(|o| o.value.to_sat() == 20_000 + d).unwrap() as u32;
+            self.kinds.insert(uhid(d), format!("c{}/{}", uh_our, uh_h));
+            let sh = mk_tx(vec![OutPoint::new(uh.compute_txid(), uh_our)], 1, 270 + d as u32);
+            let th = mk_tx(vec![OutPoint::new(uh.compute_txid(), uh_h)], 1, 280 + d as u32);
+            let vh = mk_tx(vec![OutPoint::new(th.compute_txid(), 0)], 1, 290 + d as u32);
+            self.put(uhid(d), uh);
+            self.put(shid(d), sh);
+            self.put(thid(d), th);
+            self.put(vhid(d), vh);
             self.put(ucid(d), uc);
             self.put(scid(d), sc);
             self.put(uid(d), u);
@@ -289,7 +333,14 @@ impl W15 {
         // its second-level output) or counterparty commitment (our to_remote output)
         let swept = match (depth(uid(d)), depth(sid(d)), depth(tid(d)), depth(vid(d))) {
             (Some(a), Some(b), Some(c), Some(e)) => Some(a.min(b).min(c).min(e)),
-            _ => match (depth(ucid(d)), depth(scid(d))) { (Some(a), Some(b)) => Some(a.min(b)), _ => None },
+            _ => match (depth(ucid(d)), depth(scid(d))) {
+                (Some(a), Some(b)) => Some(a.min(b)),
+                _ => match (depth(uhid(d)), depth(shid(d)), depth(thid(d)), depth(vhid(d))) {
+                    // counterparty commitment with an HTLC the node can claim: to_remote, the HTLC claim and its output
+                    (Some(a), Some(b), Some(c), Some(e)) => Some(a.min(b).min(c).min(e)),
+                    _ => None,
+                },
+            },
         };
         [depth(did(d)), depth(mid(d)), swept].into_iter().flatten().max()
     }
@@ -305,7 +356,14 @@ impl W15 {
         // its second-level output) or counterparty commitment (our to_remote output)
         let swept = match (depth(uid(d)), depth(sid(d)), depth(tid(d)), depth(vid(d))) {
             (Some(a), Some(b), Some(c), Some(e)) => Some(a.min(b).min(c).min(e)),
-            _ => match (depth(ucid(d)), depth(scid(d))) { (Some(a), Some(b)) => Some(a.min(b)), _ => None },
+            _ => match (depth(ucid(d)), depth(scid(d))) {
+                (Some(a), Some(b)) => Some(a.min(b)),
+                _ => match (depth(uhid(d)), depth(shid(d)), depth(thid(d)), depth(vhid(d))) {
+                    // counterparty commitment with an HTLC the node can claim: to_remote, the HTLC claim and its output
+                    (Some(a), Some(b), Some(c), Some(e)) => Some(a.min(b).min(c).min(e)),
+                    _ => None,
+                },
+            },
         };
         deep(depth(did(d))) || deep(depth(mid(d))) || deep(swept)
     }
@@ -384,6 +442,12 @@ impl Group for C15 {
             mk("init|new 1|setup 1|add 11|add 18|forget 1|addn 100|heartbeat|add 19|addn 99|heartbeat"),
             // an open channel whose forget was requested survives far beyond MAX_CLOSING_DEPTH (2016) blocks
             mk("init|new 1|setup 1|add 11|forget 1|addn 2030|heartbeat|restart|heartbeat|new 1"),
+            // counterparty close carrying an HTLC of an issued, fulfilled invoice; restart before the close; only the main output swept
+            mk("init|new 1|setup 1|restart|add 11|add 111|add 112|forget 1|addn 100|heartbeat|addn 3|heartbeat"),
+            // the same fully swept (main output, HTLC claim, its output): pruned at depth 100
+            mk("init|new 2|setup 2|restart|add 21|add 121|add 122 123|add 124|forget 2|addn 98|heartbeat|addn 1|heartbeat"),
+            // mutual close seen before a restart, reorg of the close after it (follower-built proofs), forget, burial: not pruned
+            mk("init|new 1|setup 1|add 11|add 13|restart|remove 13|forget 1|addn 101|heartbeat|add 13|addn 99|heartbeat"),
             // unilateral close, swept later; double spend on another channel
             mk("init|new 1|new 2|setup 1|setup 2|add 11 22|add 14|forget 1|forget 2|addn 50|add 15 16|add 17|addn 60|heartbeat|addn 45|heartbeat"),
         ];
@@ -438,20 +502,31 @@ impl Group for C15 {
             let forget_early = rng.chance(1, 3);
             if forget_early { push(&mut w, &mut ops, format!("forget {}", d)); }
             push(&mut w, &mut ops, addl(&[fid(d)]));
-            let cp_close = rng.chance(1, 3); // closed by the counterparty's commitment: only our to_remote output to sweep
+            let path = rng.below(6); // 0,1: counterparty commitment without HTLC; 2: counterparty commitment with an HTLC we can claim; else holder commitment
+            let cp_close = path <= 1;
+            let cp_htlc = path == 2;
             let mut order = vec![sid(d), tid(d)];
             if rng.chance(1, 2) { order.swap(0, 1); }
             let pos = order.iter().position(|x| *x == tid(d)).unwrap() + 1 + rng.below((order.len() - order.iter().position(|x| *x == tid(d)).unwrap()) as u64) as usize;
             order.insert(pos.min(order.len()), vid(d));
             if cp_close { order = vec![scid(d)]; }
-            let mut first = vec![if cp_close { ucid(d) } else { uid(d) }];
+            if cp_htlc {
+                order = vec![shid(d), thid(d)];
+                if rng.chance(1, 2) { order.swap(0, 1); }
+                let p = order.iter().position(|x| *x == thid(d)).unwrap() + 1;
+                order.insert(if rng.chance(1, 2) { p } else { order.len() }, vhid(d));
+            }
+            // a restart between set-up and the close: what the node knew (preimages, commitment infos) must survive it
+            if rng.chance(1, 3) { push(&mut w, &mut ops, "restart".into()); }
+            let mut first = vec![if cp_close { ucid(d) } else if cp_htlc { uhid(d) } else { uid(d) }];
             if rng.chance(1, 3) { first.push(order.remove(0)); }
             push(&mut w, &mut ops, addl(&first));
             if cp_close && rng.chance(1, 3) { order.clear(); } // our output stays unswept: must never be pruned
+            if cp_htlc && rng.chance(1, 3) { order.retain(|x| *x == shid(d)); } // only the main output is swept, the HTLC is not: must never be pruned
             let mut sweep_blocks = 0u64;
             while !order.is_empty() {
                 if rng.chance(1, 4) { push(&mut w, &mut ops, "add".into()); sweep_blocks += 1; }
-                let k = if order.len() >= 2 && order[1] != vid(d) && rng.chance(1, 3) { 2 } else { 1 };
+                let k = if order.len() >= 2 && order[1] != vid(d) && order[1] != vhid(d) && rng.chance(1, 3) { 2 } else { 1 };
                 let blk: Vec<u64> = order.drain(..k).collect();
                 push(&mut w, &mut ops, addl(&blk));
                 sweep_blocks += 1;
@@ -516,8 +591,11 @@ impl Group for C15 {
                         let mut cand = Vec::new();
                         if !has(fid(c)) && !has(did(c)) && !inb(&blk, did(c)) { cand.push(fid(c)); }
                         if !has(fid(c)) && !has(did(c)) && !inb(&blk, fid(c)) { cand.push(did(c)); }
-                        if (has(fid(c)) || inb(&blk, fid(c))) && !has(mid(c)) && !has(uid(c)) && !has(ucid(c)) { cand.push(*rng.pick(&[mid(c), uid(c), ucid(c)])); }
+                        if (has(fid(c)) || inb(&blk, fid(c))) && !has(mid(c)) && !has(uid(c)) && !has(ucid(c)) && !has(uhid(c)) { cand.push(*rng.pick(&[mid(c), uid(c), ucid(c), uhid(c)])); }
                         if has(ucid(c)) && !has(scid(c)) { cand.push(scid(c)); }
+                        if has(uhid(c)) && !has(shid(c)) { cand.push(shid(c)); }
+                        if has(uhid(c)) && !has(thid(c)) { cand.push(thid(c)); }
+                        if has(thid(c)) && !has(vhid(c)) { cand.push(vhid(c)); }
                         if (has(uid(c)) || inb(&blk, uid(c))) && !has(sid(c)) { cand.push(sid(c)); }
                         if (has(uid(c)) || inb(&blk, uid(c))) && !has(tid(c)) { cand.push(tid(c)); }
                         if has(tid(c)) && !has(vid(c)) { cand.push(vid(c)); }
